@@ -101,6 +101,29 @@ def run(ctx):
                 for m in (m1, m2):
                     ops.append((m, GC.gen_any_args(ctx.rnd) if m == "anycall" else GC.gen_arg(ctx.rnd, facade, m)))
                 cases.append(declcorr.ChainCase(facade, ops))
+    # falsy-argument sweep: a constraint declared with 0 / False / "" / 0.0 first, then every method with several arguments
+    FALSY = {
+        "str": [("len", (0,)), ("len", (False,)), ("len", (0, ...)), ("len", (..., 0)), ("len", (0, 0)), ("alphabet", ("",)),
+                ("contains", ("",)), ("regex", ("",)), ("call", ("",))],
+        "int": [("min", (0,)), ("max", (0,)), ("call", (0,)), ("call", (False,)), ("min", (False,))],
+        "float": [("min", (0.0,)), ("max", (0.0,)), ("call", (0.0,)), ("min", (-0.0,))],
+        "list": [("len", (0,)), ("len", (0, ...)), ("len", (..., 0)), ("call", ([],))],
+        "bool": [("call", (False,))], "bytes": [("call", (b"",))],
+        "dict": [("call", ({},))],
+    }
+    SECOND = {"str": ["", "abc", "a"], "int": [0, 1, -1], "float": [0.0, 1.5, -1.0], "bool": [True, False], "bytes": [b"", b"x"]}
+    for facade, firsts in FALSY.items():
+        for first in firsts:
+            for m in GC.METHODS[facade]:
+                args2 = []
+                if m == "call" and facade in SECOND:
+                    args2 = [(x,) for x in SECOND[facade]]
+                elif m in ("min", "max") and facade in SECOND:
+                    args2 = [(x,) for x in SECOND[facade]]
+                else:
+                    args2 = [GC.gen_any_args(ctx.rnd) if m == "anycall" else GC.gen_arg(ctx.rnd, facade, m) for _ in range(4)]
+                for a in args2:
+                    cases.append(declcorr.ChainCase(facade, [first, (m, a)]))
     for c in cases:
         # receiver unchanged: snapshot before, compare after
         declcorr.run_real(c)
